@@ -35,6 +35,24 @@ Proof.
   rewrite Forall_forall in IH. apply IH; assumption.
 Qed.
 
+Lemma vnodes_all g t : (forall n, In n (tree_nodes t) -> g n = true) -> vnodes g t = tree_nodes t.
+Proof.
+  induction t as [n cs IH] using tree_ind'. intros H. simpl. rewrite (H n (or_introl eq_refl)). f_equal.
+  assert (forall c, In c cs -> vnodes g c = tree_nodes c) as Hc.
+  { intros c Hc. rewrite Forall_forall in IH. apply (IH c Hc). intros m Hm. apply H. right.
+    apply in_flat_map. exists c. split; assumption. }
+  clear - Hc. induction cs as [|c cs IHcs]; [reflexivity |]. simpl.
+  rewrite (Hc c (or_introl eq_refl)), IHcs; [reflexivity |]. intros c' Hc'. apply Hc. right. assumption.
+Qed.
+
+Lemma flat_map_nil_iff {A B} (f : A -> list B) l : flat_map f l = [] <-> forall x, In x l -> f x = [].
+Proof.
+  induction l as [|x l IH]; simpl; [split; [intros _ ? [] | reflexivity] |].
+  split.
+  - intros H. apply app_eq_nil in H as [H1 H2]. intros y [<- | Hy]; [assumption | apply IH; assumption].
+  - intros H. rewrite (H x (or_introl eq_refl)). apply IH. intros y Hy. apply H. right. assumption.
+Qed.
+
 Section Accumulate.
   Variable E : Type.
   Variable f : node -> list E.
@@ -78,3 +96,34 @@ Section Accumulate.
       apply IHcs. intros c' Hc'. apply Hc. right. assumption.
   Qed.
 End Accumulate.
+
+(** a visitor with two accumulators: errors (appended) and a set (consed), always descending *)
+Section Pair.
+  Variables (E U : Type).
+  Variable fe : node -> list E.
+  Variable fu : node -> list U.
+  Variable enter : list E * list U -> node -> (list E * list U) * bool.
+  Hypothesis enter_eq : forall e u n, enter (e, u) n = ((e ++ fe n, fu n ++ u), true).
+
+  Lemma inspect_pair t : forall e u,
+    exists u', inspect enter (fun s => s) t (e, u) = (e ++ flat_map fe (tree_nodes t), u') /\
+               (forall x, In x u' <-> In x u \/ exists n, In n (tree_nodes t) /\ In x (fu n)).
+  Proof.
+    induction t as [n cs IH] using tree_ind'. intros e u.
+    assert (forall e u, exists u', fold_left (fun a c => inspect enter (fun s => s) c a) cs (e, u)
+                                    = (e ++ flat_map fe (flat_map tree_nodes cs), u') /\
+                                   (forall x, In x u' <-> In x u \/ exists n, In n (flat_map tree_nodes cs) /\ In x (fu n))) as Hfold.
+    { clear e u. induction IH as [|c cs' Hc _ IHcs]; intros e u; simpl.
+      - exists u. split; [rewrite app_nil_r; reflexivity |]. intros x. split; [tauto | intros [H | [m [[] _]]]; exact H].
+      - destruct (Hc e u) as [u1 [E1 M1]]. rewrite E1. destruct (IHcs (e ++ flat_map fe (tree_nodes c)) u1) as [u2 [E2 M2]].
+        exists u2. split; [rewrite E2, flat_map_app, app_assoc; reflexivity |].
+        intros x. rewrite M2, M1. split.
+        + intros [[H | [m [Hm Hx]]] | [m [Hm Hx]]]; [tauto | |]; right; exists m; (split; [apply in_or_app | exact Hx]); tauto.
+        + intros [H | [m [Hm Hx]]]; [tauto |]. apply in_app_or in Hm as [Hm | Hm]; [left; right | right]; exists m; tauto. }
+    simpl. rewrite enter_eq. destruct (Hfold (e ++ fe n) (fu n ++ u)) as [u' [E' M']].
+    exists u'. split; [rewrite E', <- app_assoc; reflexivity |].
+    intros x. rewrite M'. rewrite in_app_iff. split.
+    - intros [[H | H] | [m [Hm Hx]]]; [right; exists n; split; [left; reflexivity | exact H] | tauto | right; exists m; tauto].
+    - intros [H | [m [[<- | Hm] Hx]]]; [tauto | tauto | right; exists m; tauto].
+  Qed.
+End Pair.
